@@ -96,11 +96,26 @@ def install(reg):
         parts = list(I.iterate(a[0], n))
         if _prev_stack is not None and parts and all(isinstance(t, Arr) and "lit" in t.meta for t in parts):
             return _prev_stack(I, a, k, n)       # literal rows (transform bounds): exact model in pyvc.lib
-        return Obj("Matrix", {"cols": PyList(parts)})
+        ax = k.get("axis", a[1] if len(a) > 1 else IV(0))
+        axv = z3.simplify(to_int(ax)).as_long() if isinstance(ax, Z) and z3.is_int_value(z3.simplify(to_int(ax))) else None
+        if axv not in (0, -1, 1):
+            raise Unsupported("np.stack along a symbolic axis")
+        # stacked along the last axis the parts are the columns of a (samples x parameters) matrix; along axis 0 they are its rows (parameters x samples)
+        return Obj("Matrix", {"cols": PyList(parts), "orient": Str("cols" if axv in (-1, 1) else "rows")})
     reg.handlers["xp.stack"] = stack
-    reg.obj_props["Matrix.T"] = lambda I, o, n: PyList(list(o.f["cols"].items))
-    reg.obj_props["Matrix.shape"] = lambda I, o, n: Tup([IV(z3.Int("n_rows")), IV(len(o.f["cols"].items))])
+
+    def matrix_T(I, o, n):
+        if "orient" not in o.f:
+            return PyList(list(o.f["cols"].items))          # a population matrix handed in by a contract: iterating x.T gives its columns
+        return Obj("Matrix", {"cols": o.f["cols"], "orient": Str("rows" if o.f["orient"].v == "cols" else "cols")})
+    reg.obj_props["Matrix.T"] = matrix_T
+
+    def matrix_shape(I, o, n):
+        nr, d = IV(z3.Int("n_rows")), IV(len(o.f["cols"].items))
+        return Tup([nr, d]) if o.f.get("orient", Str("cols")).v == "cols" else Tup([d, nr])
+    reg.obj_props["Matrix.shape"] = matrix_shape
     reg.obj_props["Matrix.ndim"] = lambda I, o, n: IV(2)
+    reg.handlers["xp.ascontiguousarray"] = lambda I, a, k, n: a[0]
 
 
 def struct_equal(I, a, b):
@@ -197,11 +212,15 @@ class DictRoundTrip(Contract):
            "parameter order, for flat and nested layouts - also when the nested mapping iterates in alphabetical order (as after an HDF5 load)")
 
     def shapes(self):
-        return [{"cls": c, "flat": f, "reorder": ro, "present": pr} for c in ("BaseSamples", "Samples", "SMCSamples") for f in (0, 1) for ro in (0, 1)
-                for pr in (("log_q",), ("log_likelihood", "log_prior", "log_q")) if not (f and ro)]
+        out = [{"cls": c, "flat": f, "reorder": ro, "present": pr} for c in ("BaseSamples", "Samples", "SMCSamples") for f in (0, 1) for ro in (0, 1)
+               for pr in (("log_q",), ("log_likelihood", "log_prior", "log_q")) if not (f and ro)]
+        # nested layout (the one save() writes): a parameter may be called like a field of the sample set (`beta`, `log_q`) - its column lives in the
+        # "samples" group and the field keeps its own entry
+        out += [{"cls": c, "flat": 0, "reorder": ro, "present": ("log_likelihood", "log_prior", "log_q"), "clash": 1} for c in ("Samples", "SMCSamples") for ro in (0, 1)]
+        return out
 
     def setup(self, I, shape):
-        names = ["mass", "distance", "chi"]           # deliberately not in alphabetical order
+        names = ["mass", "distance", "chi"] if not shape.get("clash") else ["mass", "beta", "log_q"]           # deliberately not in alphabetical order
         n = z3.Int("n_rows")
         I.path.assume(n >= 2)
         cols = [base_arr(f"col_{nm}", "real", n) for nm in names]
@@ -235,13 +254,13 @@ class DictRoundTrip(Contract):
         p, g = I.path, pre.ghost
         q = self.qual
         sh = g["shape"]
-        tag = f"[{sh['cls']}, {'flat' if sh['flat'] else 'nested'}{', alphabetical iteration order' if sh['reorder'] else ''}]"
+        tag = f"[{sh['cls']}, {'flat' if sh['flat'] else 'nested'}{', alphabetical iteration order' if sh['reorder'] else ''}{', parameters named like fields' if sh.get('clash') else ''}]"
         if not isinstance(r, Obj):
             p.prove(z3.BoolVal(False), f"{q}:C13:returns a sample set {tag}")
             return
         x = r.f.get("x")
-        ok = isinstance(x, Obj) and x.cls == "Matrix" and len(x.f["cols"].items) == len(g["cols"])
-        p.prove(z3.BoolVal(ok), f"{q}:C13:x has one column per parameter {tag}")
+        ok = isinstance(x, Obj) and x.cls == "Matrix" and len(x.f["cols"].items) == len(g["cols"]) and x.f.get("orient", Str("cols")).v == "cols"
+        p.prove(z3.BoolVal(ok), f"{q}:C13:C16:x has one row per sample and one column per parameter (also when there are as many samples as parameters) {tag}")
         if ok:
             for j, nm in enumerate(g["names"]):
                 p.prove(arr_eq_goal(x.f["cols"].items[j], g["cols"][j]), f"{q}:C13:C16:C10:column {j} of the reloaded x holds the values stored under parameter '{nm}' {tag}")
